@@ -5,11 +5,12 @@
 import SpVerif.Drive.Naming
 import SpVerif.Drive.Conflicts
 import SpVerif.Drive.Replace
+import SpVerif.Drive.DocScan
 open Lean SpVerif.Drive
 
 /-- every op of every per-property driver module: add `++ <module>Ops` here -/
 def allOps : List (String × (Json → R Json)) :=
-  namingOps ++ conflictsOps ++ replaceOps
+  namingOps ++ conflictsOps ++ replaceOps ++ docScanOps
 
 def dispatch (op : String) (c : Json) : R Json :=
   match allOps.lookup op with
